@@ -29,6 +29,7 @@ type Job struct {
 	Detail  int        `json:"detail"`  // max issues of one kind+rule reported in full per batch
 	Par     int        `json:"par"`     // batches processed concurrently inside the worker
 	Todo    []int      `json:"todo"`    // indices of the batches this worker run has to process
+	noShift bool
 }
 
 type BatchResult struct {
@@ -126,6 +127,47 @@ func runBatch(idx int, mods []Module, job *Job) BatchResult {
 			res.Unparsed = append(res.Unparsed, m.Src)
 		}
 	}
+	// modules whose shifted text does not parse (a byte-order mark must stay first) are outside the domain
+	// of the shift relation: they are linted and bounds-checked in a batch of their own, without shifts
+	if job.Locate && len(job.Shifts) > 0 && !job.noShift {
+		var keep, apart []Module
+		for _, p := range parsed {
+			ok := true
+			for _, k := range job.Shifts {
+				if _, o := Shift(p, k); !o {
+					ok = false
+					break
+				}
+			}
+			if ok {
+				keep = append(keep, p.Module)
+			} else {
+				apart = append(apart, p.Module)
+			}
+		}
+		if len(apart) > 0 {
+			j2 := *job
+			j2.noShift = true
+			r1 := runBatch(idx, keep, job)
+			j2.Shifts = nil
+			r2 := runBatch(idx, apart, &j2)
+			for _, m := range apart {
+				r1.ShiftSkips = append(r1.ShiftSkips, m.Src+": text with blank lines on top does not parse")
+			}
+			r1.N += r2.N
+			r1.Lints += r2.Lints
+			r1.Failures = append(r1.Failures, r2.Failures...)
+			r1.Violations += r2.Violations
+			r1.Located += r2.Located
+			r1.TextChecked += r2.TextChecked
+			r1.EndPastLine += r2.EndPastLine
+			r1.AggTextDiff += r2.AggTextDiff
+			r1.LocIssues = append(r1.LocIssues, r2.LocIssues...)
+			r1.Unparsed = append(r1.Unparsed, res.Unparsed...)
+			r1.Millis = time.Since(t0).Milliseconds()
+			return r1
+		}
+	}
 	// ---- C03: lint; on error find the culprit(s), drop them, lint the rest
 	var out Outcome
 	for len(parsed) > 0 {
@@ -211,16 +253,8 @@ func runBatch(idx int, mods []Module, job *Job) BatchResult {
 		for _, k := range job.Shifts {
 			var sb []Parsed
 			for _, p := range parsed {
-				sp, ok := Shift(p, k)
-				if !ok {
-					res.ShiftSkips = append(res.ShiftSkips, fmt.Sprintf("k=%d %s: shifted text does not parse", k, p.Src))
-					sb = nil
-					break
-				}
+				sp, _ := Shift(p, k) // parses: checked before the base lint
 				sb = append(sb, sp)
-			}
-			if sb == nil {
-				continue
 			}
 			ok := LintBatch(sb, timeout)
 			res.Lints++
